@@ -167,6 +167,7 @@ contract("CircuitGraphBranch.add_to_graph", params=dict(graph=GB, operation=OP),
              "len(graph.get_node_iterator()) == len(old(graph.get_node_iterator())) + 1",
              "forall(old(graph.get_node_iterator()), lambda n: exists(graph.get_node_iterator(), lambda m: m is n) and graph.parent_of(n) is old(graph.parent_of(n)))",
              "exists(graph.get_node_iterator(), lambda m: fresh(m) and m.operation is operation)",
+             "forall(graph.get_node_iterator(), lambda m: m.operation is operation or exists(old(graph.get_node_iterator()), lambda n: n is m))",
              # no other operation's relation is touched
              "forall_obj(ICircuitOperation, lambda o: o is operation or o.relation_link is old(o.relation_link))",
              # an operation added WITH a relation to an operation of this circuit hangs below it and keeps its link
